@@ -69,6 +69,16 @@ def Prim.lt : Prim → Prim → EM Bool
   | .pinf, .num _ => .ok false | .pinf, .ninf => .ok false | .pinf, .pinf => .ok false
   | _, _ => .error .type
 
+/-- booleans, numbers (with the infinities), strings: values of different kinds are not comparable -/
+def Prim.kind : Prim → Nat
+  | .bool _ => 0
+  | .str _ => 2
+  | _ => 1
+
+def sameKinds : List Prim → Bool
+  | [] => true
+  | p :: ps => ps.all (fun q => q.kind == p.kind)
+
 /-- `=` needs operands of the same kind -/
 def Prim.eq : Prim → Prim → EM Bool
   | .bool a, .bool b => .ok (a == b)
@@ -219,7 +229,9 @@ def eval (opq : Opaque) (ρ : Env) : Expr → EM Value
   | .set _ vs => do
       let xs ← evalList opq ρ vs
       let ps ← xs.mapM asPrim
-      pure (.set ps.eraseDups)
+      -- members of different kinds (a boolean and a number, a string and a number) cannot be compared in this semantics
+      -- (`Prim.eq`), so a set literal that mixes them has no value here (Python would identify `True` and `1`)
+      if sameKinds ps then pure (.set ps.eraseDups) else .error .type
   | .range _ lo hi a b => do
       let l ← eval opq ρ lo; let h ← eval opq ρ hi
       let pl ← asPrim l; let ph ← asPrim h
